@@ -159,7 +159,7 @@ func init() {
 		ID:    "C17",
 		Level: "exploration",
 		Rule: "single packets: data type 0..15 x sub-package mark 0..15 x PT {0,6,7,19,98,99,127} x M x attr byte {81,00,FF,41} x payload {0,1,2,949,950,951,65535} with rotating SIM/channel/sequence/timestamp/interval menus; " +
-			"streams: all sequences of 1..2 (thorough 1..3) packets from a 29-packet menu, each decoded from the front with a fresh and with one reused Packet, and EVERY prefix of every stream up to 400 bytes (longer: every cut within 3 bytes of a structural boundary); " +
+			"streams: all sequences of 1..2 (thorough 1..3) packets from a 29-packet menu, buffers of 70..141 packets (more than 65535 bytes behind a header, the remainder modulo 65536 below / on / above the payload length), each decoded from the front with a fresh and with one reused Packet, and EVERY prefix of every stream up to 400 bytes (longer: every cut within 3 bytes of a structural boundary); " +
 			"arbitrary strings: all strings of length <=5 over {30,31,63,64,00,FF}, all 4-byte heads over that alphabet followed by header-like tails at lengths 15..30. Non-trivial = stream holds >=2 packets or is cut inside a packet",
 		Assumptions: []string{"reference reader harness/ref/rtp.go written from JT/T 1078 table 19; reserved data types 5..15 laid out like audio as the property states"},
 		Run:         c17Run,
@@ -264,6 +264,17 @@ func c17Run(ctx *vc.Ctx, rep *vc.Report) {
 		}
 	}
 	rec(nil, nil, nil)
+	// long buffers: what is left after a header exceeds 65535 bytes (the length field's own width) and its value modulo
+	// 65536 falls below, on and above the payload length
+	for _, lead := range []int{0, 1, 100, 805, 806, 807, 950} {
+		for _, n := range []int{69, 70, 72, 140} {
+			stream := ref.RTP{Attr: 0x81, MPT: 98, SimBCD: sims[0], Channel: 2, DataType: 3, Time: 7, Payload: bytes.Repeat([]byte{0x5A}, lead)}.Encode()
+			for k := 0; k < n; k++ {
+				stream = append(stream, ref.RTP{Attr: 0x81, MPT: 6, SimBCD: sims[1], Channel: 1, DataType: 3, Seq: uint16(k), Time: uint64(k), Payload: bytes.Repeat([]byte{byte(k)}, 950)}.Encode()...)
+			}
+			try(stream, "long-buffer", true)
+		}
+	}
 	// arbitrary strings
 	sp := newStrSpace([]byte{0x30, 0x31, 0x63, 0x64, 0x00, 0xFF}, 5)
 	buf := make([]byte, 0, 8)
